@@ -1,6 +1,7 @@
 package main
 
 import (
+	_ "embed"
 	"encoding/json"
 	"flag"
 	"fmt"
@@ -9,8 +10,13 @@ import (
 	"sort"
 	"strings"
 
+	"go/types"
+
 	"golang.org/x/tools/go/ssa"
 )
+
+//go:embed reference_funcs.txt
+var referenceFuncs string
 
 type ruleFn func(c *Check)
 
@@ -49,6 +55,52 @@ func main() {
 	case "explain":
 		explain(fs.Args())
 		return
+	case "reffuncs":
+		// prints the FullName of every own declared function: the reference list of helpers known on
+		// the tree the rules were confirmed on (checker/reference_funcs.txt)
+		P, err := LoadProgram(*repo, false, "")
+		if err != nil {
+			fmt.Fprintln(os.Stderr, err)
+			os.Exit(2)
+		}
+		var names []string
+		for _, fn := range P.Funcs {
+			if fn.Parent() == nil {
+				if o, ok := fn.Object().(*types.Func); ok {
+					names = append(names, o.FullName())
+				}
+			}
+		}
+		sort.Strings(names)
+		fmt.Println(strings.Join(names, "\n"))
+		return
+	case "nf":
+		// development aid: print the inlining log of the normal form and write the overlay files
+		P, err := LoadProgram(*repo, false, "")
+		if err != nil {
+			fmt.Fprintln(os.Stderr, err)
+			os.Exit(2)
+		}
+		pinned := collectPinned(P)
+		for _, a := range fs.Args() {
+			if f, ok := registry[a]; ok {
+				c := NewCheck(a, "quick", os.TempDir(), P)
+				func() { defer func() { _ = recover() }(); f(c) }()
+				for k := range collectPinned(P) {
+					pinned[k] = true
+				}
+			}
+		}
+		k := 1
+		if v := os.Getenv("NF_K"); v != "" {
+			fmt.Sscan(v, &k)
+		}
+		NP, log, err := normalFormDebug(P, pinned, k)
+		fmt.Println("pinned:", len(pinned), "err:", err, "changed:", NP != nil)
+		for _, l := range log {
+			fmt.Println("  ", l)
+		}
+		return
 	case "dump":
 		P, err := LoadProgram(*repo, false, "")
 		if err != nil {
@@ -75,6 +127,36 @@ func flagSet(fs *flag.FlagSet, name string) bool {
 	return set
 }
 
+// evalOn runs the rules of a property on one loaded program (and, in the thorough tier, on the
+// second build variant produced by loadVariant).
+func evalOn(id, tier, verif string, fn ruleFn, P *Program, loadVariant func() (*Program, error)) (c *Check) {
+	resetCaches()
+	c = NewCheck(id, tier, verif, P)
+	defer func() {
+		if r := recover(); r != nil {
+			c.Fail(id+".meta", "analyser-panic", "-", fmt.Sprintf("analyser panic (fails closed): %v\n%s", r, debug.Stack()))
+		}
+	}()
+	fn(c)
+	if tier == "thorough" && loadVariant != nil {
+		// second build configuration: the only build tag of the repository (boringcrypto selects
+		// internal/fips_enabled.go). Every rule is evaluated again on that variant.
+		P2, err := loadVariant()
+		if err != nil {
+			c.Fail(id+".meta", "load/boringcrypto", "-", "cannot load the boringcrypto build variant: "+err.Error())
+		} else {
+			resetCaches()
+			c.P = P2
+			c.variant = "@boringcrypto"
+			fn(c)
+			c.P = P
+			c.variant = ""
+			c.extra["build_variants"] = []string{"default", "GOEXPERIMENT=boringcrypto"}
+		}
+	}
+	return c
+}
+
 func runCheck(id, tier, repo, verif string, fn ruleFn) (code int) {
 	whole := tier == "thorough" && needsWhole[id]
 	P, err := LoadProgram(repo, whole, "")
@@ -87,27 +169,70 @@ func runCheck(id, tier, repo, verif string, fn ruleFn) (code int) {
 		fmt.Printf("VIOLATION property=%s replay=%s\n", id, rep)
 		return 1
 	}
-	c := NewCheck(id, tier, verif, P)
-	defer func() {
-		if r := recover(); r != nil {
-			c.Fail(id+".meta", "analyser-panic", "-", fmt.Sprintf("analyser panic (fails closed): %v\n%s", r, debug.Stack()))
-			code = c.Finish()
+	c := evalOn(id, tier, verif, fn, P, func() (*Program, error) { return LoadProgram(repo, false, "boringcrypto") })
+	if n := c.unlisted(); n > 0 && os.Getenv("VERIF_NO_NORMALFORM") == "" {
+		// The plain run reports a violation. Before believing it, evaluate the property on the inlined
+		// normal forms of the tree (normalize.go): equivalent programs in which the calls of non-anchor
+		// helpers are inlined into their callers. A normal form can acquit (the structural condition
+		// holds on a program with the same behaviour), never convict: diagnostics come from the plain run.
+		pinned := collectPinned(P)
+		pinnedRef := map[string]bool{}
+		for k := range pinned {
+			pinnedRef[k] = true
 		}
-	}()
-	fn(c)
-	if tier == "thorough" {
-		// second build configuration: the only build tag of the repository (boringcrypto selects
-		// internal/fips_enabled.go). Every rule is evaluated again on that variant.
-		P2, err := LoadProgram(repo, false, "boringcrypto")
-		if err != nil {
-			c.Fail(id+".meta", "load/boringcrypto", "-", "cannot load the boringcrypto build variant: "+err.Error())
-		} else {
-			c.P = P2
-			c.variant = "@boringcrypto"
-			fn(c)
-			c.P = P
-			c.variant = ""
-			c.extra["build_variants"] = []string{"default", "GOEXPERIMENT=boringcrypto"}
+		for _, n := range strings.Fields(referenceFuncs) {
+			pinnedRef[n] = true
+		}
+		type nfMode struct {
+			k      int
+			pinned map[string]bool
+			what   string
+		}
+		// normal forms, least intrusive first: only helpers that the reference tree does not have
+		// (freshly extracted functions), then every non-anchor helper
+		modes := []nfMode{{1, pinnedRef, "new helpers"}, {4, pinnedRef, "new helpers"}, {1, pinned, "all non-anchor helpers"}, {4, pinned, "all non-anchor helpers"}}
+		for _, md := range modes {
+			k, pinned := md.k, md.pinned
+			NP, log, err := NormalForm(P, pinned, k, "")
+			if err != nil || NP == nil {
+				continue
+			}
+			NP.NormalOf = log
+			c2 := evalOn(id, tier, verif, fn, NP, func() (*Program, error) {
+				P2, err := LoadProgram(repo, false, "boringcrypto")
+				if err != nil {
+					return nil, err
+				}
+				NP2, _, err := NormalForm(P2, pinned, k, "boringcrypto")
+				if err != nil {
+					return nil, err
+				}
+				if NP2 == nil {
+					return P2, nil
+				}
+				return NP2, nil
+			})
+			if os.Getenv("VERIF_NF_DEBUG") != "" {
+				fmt.Printf("normal form k=%d: %d inlinings, %d unlisted\n", k, len(log), c2.unlisted())
+				for _, o := range c2.Obls {
+					if o.Status == "violated" {
+						fmt.Printf("  NF violated %s at %s: %s\n", o.Key, o.Where, o.Why)
+					}
+				}
+				for _, kk := range c2.unlistedKeys() {
+					fmt.Println("  NF unlisted:", kk)
+				}
+			}
+			if c2.unlisted() == 0 {
+				c2.extra["normal_form"] = map[string]any{
+					"why": fmt.Sprintf("the plain run reported %d violation(s) (first: %s); the property was decided on the "+
+						"inlined normal form of the tree (%s with at most %d call site(s) inlined at source level, type-checked again)", n, c.firstUnlisted(), md.what, k),
+					"inlined": log,
+				}
+				c2.Note("decided on the inlined normal form: " + strings.Join(log, "; "))
+				c = c2
+				break
+			}
 		}
 	}
 	return c.Finish()
